@@ -186,6 +186,13 @@ Section BootFacts.
     destruct m, e; simpl; eauto; destruct (Qeqb _ 0); eauto.
   Qed.
 
+  Lemma lvl_is_some m col th p : somes col <> [] -> exists v, lvl m col th p = Some v.
+  Proof.
+    intro H. destruct (arg_of_some m col th (PhiInv p) H) as [e E]. unfold lvl. rewrite E. destruct e; simpl; eauto.
+  Qed.
+  Lemma lvl_none m col th p : somes col = [] -> lvl m col th p = None.
+  Proof. intro H. unfold lvl. now rewrite arg_of_none. Qed.
+
   Hypothesis Phi_range : forall x, 0 <= Phi x /\ Phi x <= 1.
 
   Lemma cdf_x_range z v : cdf_x z = Some v -> 0 <= v /\ v <= 1.
@@ -197,10 +204,7 @@ Section BootFacts.
     intro H. destruct (arg_of_some m col th (PhiInv p) H) as [e E].
     unfold lvl. rewrite E. destruct e; simpl; eexists; (split; [reflexivity|]); try lra. apply Phi_range.
   Qed.
-  Lemma lvl_none m col th p : somes col = [] -> lvl m col th p = None.
-  Proof. intro H. unfold lvl. now rewrite arg_of_none. Qed.
-
-  (* bc/bca raise exactly on components without a finite replicate; otherwise both limits are numbers *)
+  (* with at least one finite replicate both bc/bca limits are numbers *)
   Lemma ci_col_bcx_ok m col th alpha :
     m <> MQuantile -> somes col <> [] ->
     exists ql qu lo hi, levels m col th alpha = (Some ql, Some qu) /\
@@ -218,8 +222,9 @@ Section BootFacts.
     destruct m; [congruence| |]; unfold ci_col, BootCI.ci_col; rewrite levels_lvl, El, Eu;
       unfold ci_at_levels; rewrite V, !nanquantile_some by exact Hne; reflexivity.
   Qed.
-  Lemma ci_col_bcx_err m col th alpha :
-    m <> MQuantile -> somes col = [] -> ci_col m col th alpha = Err.
+  (* a component without a finite replicate gets NaN limits (no exception) *)
+  Lemma ci_col_bcx_nan m col th alpha :
+    m <> MQuantile -> somes col = [] -> ci_col m col th alpha = Ok (None, None).
   Proof.
     intros Hm He. destruct m; [congruence| |]; unfold ci_col, BootCI.ci_col; rewrite levels_lvl, !lvl_none by exact He; reflexivity.
   Qed.
@@ -278,16 +283,16 @@ Section BootFacts.
   Proof. intros. unfold lvl. apply lvl_mono_z; auto. Qed.
 
   (* ---------- what an Ok result of the per-component step says ---------- *)
-  Lemma ci_at_levels_ok col lv lo hi :
-    ci_at_levels col lv = Ok (lo, hi) ->
-    exists ql qu, lv = (Some ql, Some qu) /\ (0 <= ql /\ ql <= 1) /\ (0 <= qu /\ qu <= 1) /\
-                  lo = nanquantile col ql /\ hi = nanquantile col qu.
+  Lemma ci_at_levels_some col ql qu lo hi :
+    ci_at_levels col (Some ql, Some qu) = Ok (lo, hi) ->
+    (0 <= ql /\ ql <= 1) /\ (0 <= qu /\ qu <= 1) /\ lo = nanquantile col ql /\ hi = nanquantile col qu.
   Proof.
-    unfold ci_at_levels. destruct lv as [[ql|] [qu|]]; try discriminate.
-    destruct (q_valid ql && q_valid qu) eqn:V; [|discriminate].
+    unfold ci_at_levels. destruct (q_valid ql && q_valid qu) eqn:V; [|discriminate].
     apply andb_true_iff in V. destruct V as [V1 V2]. apply q_valid_iff in V1, V2.
-    intro H. injection H as <- <-. exists ql, qu. auto.
+    intro H. injection H as <- <-. auto.
   Qed.
+  Lemma nil_dec {A} (l : list A) : {l = []} + {l <> []}.
+  Proof. destruct l; [left; reflexivity|right; discriminate]. Qed.
 
   Definition side_cond (m : method) (col : list rate) (th : rate) (alpha : Q) : Prop :=
     match m with
@@ -316,17 +321,20 @@ Section BootFacts.
     intros A0 A1 Sd. rewrite ci_col_levels.
     assert (Hq : 0 < alpha * (1#2) /\ alpha * (1#2) <= 1 - alpha * (1#2) /\ 1 - alpha * (1#2) < 1) by (repeat split; lra).
     destruct Hq as (Q0 & Q1 & Q2).
+    assert (G : forall mm, mm <> MQuantile ->
+              side mm col th (PhiInv (alpha * (1#2))) -> side mm col th (PhiInv (1 - alpha * (1#2))) ->
+              ci_at_levels col (lvl mm col th (alpha * (1#2)), lvl mm col th (1 - alpha * (1#2))) = Ok (lo, hi) -> rle lo hi).
+    { intros mm Hm S1 S2. destruct (nil_dec (somes col)) as [E|NE].
+      - rewrite !lvl_none by exact E. cbn [ci_at_levels]. intro H. injection H as <- <-. exact I.
+      - destruct (lvl_is_some mm col th (alpha * (1#2)) NE) as [ql El].
+        destruct (lvl_is_some mm col th (1 - alpha * (1#2)) NE) as [qu Eu].
+        pose proof (lvl_mono mm col th _ _ Q0 Q1 Q2 S1 S2) as M. rewrite El, Eu in *. simpl in M.
+        intro H. apply ci_at_levels_some in H. destruct H as ([L0 L1] & [U0 U1] & -> & ->).
+        now apply nanquantile_mono. }
     destruct m.
-    - intro H. apply ci_at_levels_ok in H. destruct H as (ql & qu & E & _ & _ & -> & ->).
-      injection E as <- <-. apply nanquantile_mono; lra.
-    - intro H. apply ci_at_levels_ok in H. destruct H as (ql & qu & E & [L0 L1] & [U0 U1] & -> & ->).
-      injection E as El Eu.
-      pose proof (lvl_mono MBc col th _ _ Q0 Q1 Q2 I I) as M. rewrite El, Eu in M. simpl in M.
-      now apply nanquantile_mono.
-    - intro H. apply ci_at_levels_ok in H. destruct H as (ql & qu & E & [L0 L1] & [U0 U1] & -> & ->).
-      injection E as El Eu. destruct Sd as [S1 S2].
-      pose proof (lvl_mono MBca col th _ _ Q0 Q1 Q2 S1 S2) as M. rewrite El, Eu in M. simpl in M.
-      now apply nanquantile_mono.
+    - intro H. apply ci_at_levels_some in H. destruct H as (_ & _ & -> & ->). apply nanquantile_mono; lra.
+    - apply G; [discriminate|exact I|exact I].
+    - destruct Sd as [S1 S2]. apply G; [discriminate|exact S1|exact S2].
   Qed.
 
   (* nested in alpha: a larger alpha gives an interval inside the one of a smaller alpha *)
@@ -340,25 +348,29 @@ Section BootFacts.
     assert (Hq : 0 < alpha * (1#2) /\ alpha * (1#2) <= alpha' * (1#2) /\ alpha' * (1#2) < 1) by (repeat split; lra).
     assert (Hr : 0 < 1 - alpha' * (1#2) /\ 1 - alpha' * (1#2) <= 1 - alpha * (1#2) /\ 1 - alpha * (1#2) < 1) by (repeat split; lra).
     destruct Hq as (Q0 & Q1 & Q2). destruct Hr as (R0 & R1 & R2).
+    assert (G : forall mm, mm <> MQuantile ->
+              side mm col th (PhiInv (alpha * (1#2))) -> side mm col th (PhiInv (1 - alpha * (1#2))) ->
+              side mm col th (PhiInv (alpha' * (1#2))) -> side mm col th (PhiInv (1 - alpha' * (1#2))) ->
+              ci_at_levels col (lvl mm col th (alpha * (1#2)), lvl mm col th (1 - alpha * (1#2))) = Ok (lo, hi) ->
+              ci_at_levels col (lvl mm col th (alpha' * (1#2)), lvl mm col th (1 - alpha' * (1#2))) = Ok (lo', hi') ->
+              rle lo lo' /\ rle hi' hi).
+    { intros mm Hm S1 S2 S1' S2'. destruct (nil_dec (somes col)) as [E|NE].
+      - rewrite !lvl_none by exact E. cbn [ci_at_levels]. intros H H'. injection H as <- <-. injection H' as <- <-. split; exact I.
+      - destruct (lvl_is_some mm col th (alpha * (1#2)) NE) as [ql El].
+        destruct (lvl_is_some mm col th (1 - alpha * (1#2)) NE) as [qu Eu].
+        destruct (lvl_is_some mm col th (alpha' * (1#2)) NE) as [ql' El'].
+        destruct (lvl_is_some mm col th (1 - alpha' * (1#2)) NE) as [qu' Eu'].
+        pose proof (lvl_mono mm col th _ _ Q0 Q1 Q2 S1 S1') as M.
+        pose proof (lvl_mono mm col th _ _ R0 R1 R2 S2' S2) as N.
+        rewrite El, Eu, El', Eu' in *. simpl in M, N.
+        intros H H'. apply ci_at_levels_some in H, H'.
+        destruct H as ([L0 L1] & [U0 U1] & -> & ->). destruct H' as ([L0' L1'] & [U0' U1'] & -> & ->).
+        split; now apply nanquantile_mono. }
     destruct m.
-    - intros H H'. apply ci_at_levels_ok in H, H'.
-      destruct H as (ql & qu & E & _ & _ & -> & ->). destruct H' as (ql' & qu' & E' & _ & _ & -> & ->).
-      injection E as <- <-. injection E' as <- <-. split; apply nanquantile_mono; lra.
-    - intros H H'. apply ci_at_levels_ok in H, H'.
-      destruct H as (ql & qu & E & [L0 L1] & [U0 U1] & -> & ->).
-      destruct H' as (ql' & qu' & E' & [L0' L1'] & [U0' U1'] & -> & ->).
-      injection E as El Eu. injection E' as El' Eu'.
-      pose proof (lvl_mono MBc col th _ _ Q0 Q1 Q2 I I) as M. rewrite El, El' in M. simpl in M.
-      pose proof (lvl_mono MBc col th _ _ R0 R1 R2 I I) as N. rewrite Eu, Eu' in N. simpl in N.
-      split; now apply nanquantile_mono.
-    - intros H H'. apply ci_at_levels_ok in H, H'.
-      destruct H as (ql & qu & E & [L0 L1] & [U0 U1] & -> & ->).
-      destruct H' as (ql' & qu' & E' & [L0' L1'] & [U0' U1'] & -> & ->).
-      injection E as El Eu. injection E' as El' Eu'.
-      destruct Sd as [S1 S2], Sd' as [S1' S2'].
-      pose proof (lvl_mono MBca col th _ _ Q0 Q1 Q2 S1 S1') as M. rewrite El, El' in M. simpl in M.
-      pose proof (lvl_mono MBca col th _ _ R0 R1 R2 S2' S2) as N. rewrite Eu, Eu' in N. simpl in N.
-      split; now apply nanquantile_mono.
+    - intros H H'. apply ci_at_levels_some in H, H'.
+      destruct H as (_ & _ & -> & ->). destruct H' as (_ & _ & -> & ->). split; apply nanquantile_mono; lra.
+    - apply G; try exact I. discriminate.
+    - destruct Sd as [S1 S2], Sd' as [S1' S2']. apply G; auto. discriminate.
   Qed.
 End BootFacts.
 
@@ -379,18 +391,28 @@ Proof.
   - now apply (nanquantile_none col q).
 Qed.
 
-Lemma ci_at_levels_in_range col lv lo hi :
-  ci_at_levels col lv = Ok (lo, hi) -> in_range col lo /\ in_range col hi.
+Lemma ci_at_levels_some_in_range col ql qu lo hi :
+  ci_at_levels col (Some ql, Some qu) = Ok (lo, hi) -> in_range col lo /\ in_range col hi.
 Proof.
-  unfold ci_at_levels. destruct lv as [[ql|] [qu|]]; try discriminate.
-  destruct (q_valid ql && q_valid qu) eqn:V; [|discriminate].
+  unfold ci_at_levels. destruct (q_valid ql && q_valid qu) eqn:V; [|discriminate].
   apply andb_true_iff in V. destruct V as [V1 V2]. apply q_valid_iff in V1, V2.
   intro H. injection H as <- <-. split; apply nanquantile_in_range; tauto.
 Qed.
 
 Lemma ci_col_in_range Phi PhiInv pow15 m col th alpha lo hi :
   ci_col Phi PhiInv pow15 m col th alpha = Ok (lo, hi) -> in_range col lo /\ in_range col hi.
-Proof. unfold ci_col. destruct m; apply ci_at_levels_in_range. Qed.
+Proof.
+  rewrite ci_col_levels.
+  assert (G : forall mm,
+            ci_at_levels col (lvl Phi PhiInv pow15 mm col th (alpha * (1#2)), lvl Phi PhiInv pow15 mm col th (1 - alpha * (1#2))) = Ok (lo, hi) ->
+            in_range col lo /\ in_range col hi).
+  { intros mm. destruct (nil_dec (somes col)) as [E|NE].
+    - rewrite !lvl_none by exact E. cbn [ci_at_levels]. intro H. injection H as <- <-. split; exact E.
+    - destruct (lvl_is_some Phi PhiInv pow15 mm col th (alpha * (1#2)) NE) as [ql El].
+      destruct (lvl_is_some Phi PhiInv pow15 mm col th (1 - alpha * (1#2)) NE) as [qu Eu].
+      rewrite El, Eu. apply ci_at_levels_some_in_range. }
+  destruct m; [apply ci_at_levels_some_in_range|apply G|apply G].
+Qed.
 
 (* ---------- invariance: reordering / NaN replicates; affine maps ---------- *)
 Definition pair_map {A B} (f : A -> B) (p : A * A) : B * B := (f (fst p), f (snd p)).
@@ -400,8 +422,7 @@ Lemma ci_at_levels_rel c1 c2 lv lv' :
   res_rel req2 (ci_at_levels c1 lv) (ci_at_levels c2 lv').
 Proof.
   intros P [H1 H2]. destruct lv as [a b], lv' as [a' b']. simpl in H1, H2. unfold ci_at_levels.
-  destruct a as [ql|], a' as [ql'|]; simpl in H1; try tauto; try exact I.
-  destruct b as [qu|], b' as [qu'|]; simpl in H2; try tauto; try exact I.
+  destruct a as [ql|], a' as [ql'|], b as [qu|], b' as [qu'|]; simpl in H1, H2; try tauto; try (simpl; split; exact I).
   rewrite (q_valid_comp _ _ H1), (q_valid_comp _ _ H2).
   destruct (q_valid ql' && q_valid qu'); simpl; [|exact I].
   split; simpl.
@@ -415,8 +436,7 @@ Lemma ci_at_levels_affine a b col lv lv' :
                (res_map (pair_map (rmap (fun x => a * x + b))) (ci_at_levels col lv)).
 Proof.
   intros Ha [H1 H2]. destruct lv as [u v], lv' as [u' v']. simpl in H1, H2. unfold ci_at_levels.
-  destruct u as [ql|], u' as [ql'|]; simpl in H1; try tauto; try exact I.
-  destruct v as [qu|], v' as [qu'|]; simpl in H2; try tauto; try exact I.
+  destruct u as [ql|], u' as [ql'|], v as [qu|], v' as [qu'|]; simpl in H1, H2; try tauto; try (simpl; split; exact I).
   rewrite (q_valid_comp _ _ H1), (q_valid_comp _ _ H2).
   destruct (q_valid ql && q_valid qu) eqn:V; simpl; [|exact I].
   apply andb_true_iff in V. destruct V as [V1 V2]. apply q_valid_iff in V1, V2.
@@ -912,27 +932,45 @@ Proof. reflexivity. Qed.
 Lemma pow0_homog c x : 0 < c -> pow0 (c * c * x) == c * c * c * pow0 x.
 Proof. intros _. unfold pow0. ring. Qed.
 
-(* integer dtype: bca raises where float input of the same values and bc on the integers succeed *)
-Lemma int_bca_refuted (Phi PhiInv pow15 : Q -> Q) :
-  (forall x, 0 <= Phi x /\ Phi x <= 1) ->
-  exists rows hs alpha,
-    bootstrap_ci_dt Phi PhiInv pow15 DInt [] rows (Some hs) (AScalar alpha) MBca = Err /\
-    (exists d, bootstrap_ci_dt Phi PhiInv pow15 DFloat [] rows (Some hs) (AScalar alpha) MBca = Ok ([2%nat], d)) /\
-    (exists d, bootstrap_ci_dt Phi PhiInv pow15 DInt [] rows (Some hs) (AScalar alpha) MBc = Ok ([2%nat], d)).
-Proof.
-  intro Hr. exists [[Some 1]; [Some 2]; [Some 3]; [Some 4]; [Some 7]], [Some 3], (1#10).
-  split; [reflexivity|].
-  assert (G : forall m, m <> MQuantile -> exists d,
-            bootstrap_ci Phi PhiInv pow15 [] [[Some 1]; [Some 2]; [Some 3]; [Some 4]; [Some 7]] (Some [Some 3]) (AScalar (1#10)) m = Ok ([2%nat], d)).
-  { intros m Hm. unfold bootstrap_ci.
-    destruct (bootstrap_ci_bcx Phi PhiInv pow15 m [] [[Some 1]; [Some 2]; [Some 3]; [Some 4]; [Some 7]] (Some [Some 3]) (1#10)) as [[sh d]|] eqn:E.
-    - destruct (bootstrap_ci_bcx_ok _ _ _ _ _ _ _ _ _ _ Hm E) as (-> & _). exists d. destruct m; [congruence|reflexivity|reflexivity].
-    - exfalso. apply (bootstrap_ci_bcx_err _ _ _ _ _ _ _ _ Hm) in E. destruct E as (c & h & Hin & He).
-      simpl in Hin. destruct Hin as [Hin|[]]. injection Hin as <- <-.
-      destruct (ci_col_bcx_ok Phi PhiInv pow15 Hr m _ (Some 3) (1#10) Hm
-                  (ltac:(discriminate) : somes [Some 1; Some 2; Some 3; Some 4; Some 7] <> [])) as (? & ? & ? & ? & _ & E' & _).
-      unfold column in He. simpl in He. rewrite E' in He. discriminate. }
-  split.
-  - destruct (G MBca ltac:(discriminate)) as [d E]. exists d. exact E.
-  - destruct (G MBc ltac:(discriminate)) as [d E]. exists d. exact E.
-Qed.
+(* ---------- after the repairs: the array call always succeeds; integer dtype is irrelevant ---------- *)
+Section BootTotal.
+  Variables Phi PhiInv pow15 : Q -> Q.
+  Hypothesis Phi_range : forall x, 0 <= Phi x /\ Phi x <= 1.
+  Notation ci_col := (ci_col Phi PhiInv pow15).
+  Notation bootstrap_ci_bcx := (bootstrap_ci_bcx Phi PhiInv pow15).
+
+  (* a single component never raises: NaN limits without finite replicates, numbers otherwise *)
+  Lemma ci_col_bcx_total m col th alpha :
+    m <> MQuantile -> exists lo hi, ci_col m col th alpha = Ok (lo, hi) /\ (lo = None <-> somes col = []) /\ (hi = None <-> somes col = []).
+  Proof.
+    intro Hm. destruct (nil_dec (somes col)) as [E|NE].
+    - exists None, None. rewrite (ci_col_bcx_nan Phi PhiInv pow15 m col th alpha Hm E). tauto.
+    - destruct (ci_col_bcx_ok Phi PhiInv pow15 Phi_range m col th alpha Hm NE) as (ql & qu & lo & hi & _ & E & _).
+      exists (Some lo), (Some hi). split; [exact E|]. split; split; intro H; congruence.
+  Qed.
+
+  (* the whole array: never an exception; every entry is the one-component computation on its own column and
+     estimate, so components are computed independently *)
+  Lemma bootstrap_ci_bcx_total m yshape rows hs alpha :
+    m <> MQuantile -> length hs = prod_shape yshape ->
+    exists data, bootstrap_ci_bcx m yshape rows (Some hs) alpha = Ok (yshape ++ [2%nat], data) /\
+      length data = prod_shape (yshape ++ [2%nat]) /\
+      forall j, (j < prod_shape yshape)%nat ->
+        ci_col m (column rows j) (nth j hs None) alpha = Ok (nth (j * 2 + 0) data None, nth (j * 2 + 1) data None).
+  Proof.
+    intros Hm Hl.
+    destruct (bootstrap_ci_bcx m yshape rows (Some hs) alpha) as [[sh data]|] eqn:E.
+    - assert (Hs := bootstrap_ci_shape Phi PhiInv pow15 yshape rows (Some hs) (AScalar alpha) m sh data I).
+      assert (Hc : hats_consistent m yshape (Some hs)) by (destruct m; [exact I|exact Hl|exact Hl]).
+      assert (Ed : bootstrap_ci Phi PhiInv pow15 yshape rows (Some hs) (AScalar alpha) m = Ok (sh, data))
+        by (destruct m; [congruence|exact E|exact E]).
+      destruct (Hs Hc Ed) as [-> L]. simpl app in *. exists data. split; [reflexivity|]. split; [exact L|].
+      intros j Hj. exact (proj1 (bootstrap_ci_bcx_component _ _ _ _ _ _ _ _ _ _ j Hm Hl Hj E)).
+    - exfalso. apply (bootstrap_ci_bcx_err _ _ _ _ _ _ _ _ Hm) in E. destruct E as (c & h & _ & He).
+      destruct (ci_col_bcx_total m c h alpha Hm) as (lo & hi & E' & _). congruence.
+  Qed.
+End BootTotal.
+
+Lemma int_dtype_same Phi PhiInv pow15 dt yshape rows hats al m :
+  bootstrap_ci_dt Phi PhiInv pow15 dt yshape rows hats al m = bootstrap_ci Phi PhiInv pow15 yshape rows hats al m.
+Proof. reflexivity. Qed.
